@@ -175,6 +175,10 @@ func init() {
 	}
 }
 
+// c16OpAlphabet: the characters (a) leaves out - number syntax, every one-character
+// operator, range brackets, and '!', '&', '|' which cannot start a token.
+var c16OpAlphabet = []byte{'a', '5', '.', '-', '+', '~', '^', '=', '>', '<', '[', ']', '{', '}', ')', '?', '\\', ' ', '!', '&', '|'}
+
 var c16Alphabet = []byte{'a', '5', '-', '\\', '"', '\'', '/', '*', ':', '(', ' ', '\n', 0xC3, 0xA9, 0xD9, 0xA3}
 
 func c16Classify(st *report.Stats, c C16Case, ntok int, sawErr bool) {
@@ -220,6 +224,7 @@ func TestC16(t *testing.T) {
 	defer st.Finish(t)
 	regress(t, st, "C16")
 	_ = activeFindings(st, "C16")
+	st.Rule("byte strings handed to internal/lex: every string up to a stated length over two byte alphabets (quotes / slash / escape / wildcard / colon / bracket / whitespace / the bytes of two multi-byte runes; and number syntax, every one-character operator, range brackets and three characters that cannot start a token), random strings mixing the hostile pool with random runes and raw bytes, strings with a lexical error inserted on purpose (unterminated quote or regexp, illegal character), printed queries, and rapid state-machine histories of Peek/Next. Oracle: reconstruction - each token's text is a prefix of the remaining input after skipping whitespace, tokens are non-empty, end on rune boundaries, never start at a character that cannot start a token, EOF only at the end, an error token only where the harness's own reading of the syntax finds a lexical error, EOF forever afterwards; Peek twice == Next and a peeked lexer yields the same stream as an unpeeked one; Parse fails (both default-field modes) whenever an error token was seen or a lexical error was inserted. Non-trivial = >= 2 tokens, or the input has an escape, delimiter, multi-byte rune, invalid UTF-8, a trailing backslash, an error token or an inserted lexical error; distinct by input.")
 
 	run := func(stream string, c C16Case) bool {
 		st.Eval()
@@ -258,6 +263,30 @@ func TestC16(t *testing.T) {
 	}
 	for l := 0; l <= maxLen; l++ {
 		rec(l, 0)
+	}
+
+	// (a2) the same over the operator / number alphabet: signs, dots, comparison and
+	// bracket characters, the suffix operators and three characters that cannot start
+	// a token. Lengths 0 and 1 over shared bytes repeat (a); that is harmless.
+	st.Stream("exhaustive-operator-bytes", true, fmt.Sprintf("all strings of length 0..%d over the %d-byte alphabet %q", maxLen, len(c16OpAlphabet), string(c16OpAlphabet)))
+	total = 0
+	var rec2 func(l, pos int)
+	rec2 = func(l, pos int) {
+		if pos == l {
+			if int(total%int64(cfg.NShards)) == cfg.Shard {
+				b := append([]byte(nil), buf[:l]...)
+				run("exhaustive-operator-bytes", C16Case{Input: b, Quoted: fmt.Sprintf("%q", b)})
+			}
+			total++
+			return
+		}
+		for _, ch := range c16OpAlphabet {
+			buf[pos] = ch
+			rec2(l, pos+1)
+		}
+	}
+	for l := 0; l <= maxLen; l++ {
+		rec2(l, 0)
 	}
 
 	// (b) random strings: hostile pool, random runes, raw bytes
